@@ -606,6 +606,16 @@ func bpCallSitesSSA(c *Ctx) {
 					same = symExpr(stripConvert(sl.High), 0) == symExpr(stripConvert(call.Call.Args[0]), 0)
 				}
 			}
+			if !same && sl != nil && sl.High != nil && sl.Low != nil {
+				// buf[off : off+width]: the length is what counts
+				if hi, ok := stripConvert(sl.High).(*ssa.BinOp); ok && hi.Op == token.ADD {
+					wsym := symExpr(stripConvert(call.Call.Args[0]), 0)
+					lo := stripConvert(sl.Low)
+					if (hi.X == lo && symExpr(stripConvert(hi.Y), 0) == wsym) || (hi.Y == lo && symExpr(stripConvert(hi.X), 0) == wsym) {
+						same = true
+					}
+				}
+			}
 			if !same {
 				r.bad("BP/callsite", key+" bytes", pos, "Unpack must receive buf[:width] with the same width it is told")
 			} else {
